@@ -472,7 +472,19 @@ pub fn calculate_lalr1_parse_table(
     let grammar = GrammarLalr::from(cfg);
     trace!("{grammar:#?}");
     let config = LALRConfig::new();
-    let parse_table = grammar.lalr1(&config).map_err(|e| {
+    // The table construction of the `lalry` crate panics on conflicts that involve the accept
+    // action (e.g. for cyclic grammars like `S: A; A: S | "a";`). Such grammars are not LALR(1),
+    // thus we report an error instead of crashing.
+    let parse_table = std::panic::catch_unwind(std::panic::AssertUnwindSafe(|| {
+        grammar.lalr1(&config)
+    }))
+    .map_err(|_| {
+        anyhow!(
+            "LALR(1) parse table construction failed: the grammar is not LALR(1), \
+            it has a conflict that involves the accept action"
+        )
+    })?
+    .map_err(|e| {
         let conflict: LRConflict = e.into();
         let mut conflict: LRConflictError = conflict.into();
         conflict.set_cfg(cfg.clone());
